@@ -720,12 +720,12 @@ class NumericalMultiplicationOperator(BinaryOperator):
                 cur_el1 = self.element_1
                 for i in self.index:
                     cur_el1 = cur_el1[i]
-                return "({}) * ({})".format(str(self.element_2), cur_el1.term(time))
+                return "({}) * ({})".format(self.element_2.term(time), cur_el1.term(time))
 
             else:
-                return "(" + str(self.element_2) + ") * (" + self.element_1.term(time) + ")"
+                return "(" + self.element_2.term(time) + ") * (" + self.element_1.term(time) + ")"
         else:
-            return "(" + str(self.element_2) + ") * (" + self.element_1.term(time) + ")"
+            return "(" + self.element_2.term(time) + ") * (" + self.element_1.term(time) + ")"
 
     def resolve_dimensions(self):
         dim1 = _get_element_dimensions(self.element_1)
